@@ -341,7 +341,7 @@ func init() {
 }
 
 func init() {
-	register(&Rule{ID: "MINIFY.symbol-map", Floor: 6,
+	register(&Rule{ID: "MINIFY.symbol-map", Floor: 7,
 		Doc: "in buildAssignments every turn of the naming loop that assigns a new name also records it in the symbol map (Entries, MinifiedToOriginal, OriginalToMinified) — no rename goes unreported — and the new name is fmt.Sprintf(constant with one integer verb, a function of the loop index), so names are pairwise distinct and the reported map can be inverted; the map's original is the renamed symbol's own Name",
 		Run: func(c *Ctx) []Obligation {
 			fn, fd, pkg := c.LookupFunc("minifier.buildAssignments")
@@ -390,46 +390,158 @@ func init() {
 					loopBlock = b
 				}
 			}
-			// the new name
+			// the new name: every definition is fmt.Sprintf(<one integer verb>, V) with V either the loop
+			// index (± constant) or a counter that is only ever incremented and is incremented in every
+			// turn before the name is assigned
 			nameObj := identObj(info, assignStore.Rhs[0])
 			idxObj := identObj(info, loopStmt.Key)
 			okName := false
 			nameDetail := "the assigned name is not a local defined by fmt.Sprintf"
+			var counter types.Object
 			if nameObj != nil {
-				if dc, _, _ := definingCall(info, loopStmt.Body, nameObj); dc != nil && stdFuncCalled(info, dc, "fmt", "Sprintf") && len(dc.Args) == 2 {
-					if f, ok := constStringVal(info, dc.Args[0]); ok {
-						vs := parseVerbs(f)
+				var defs []*ast.CallExpr
+				okDefs := true
+				ast.Inspect(loopStmt.Body, func(n ast.Node) bool {
+					as, ok := n.(*ast.AssignStmt)
+					if !ok || len(as.Lhs) != len(as.Rhs) {
+						return true
+					}
+					for i, l := range as.Lhs {
+						if identObj(info, l) == nameObj {
+							ce, _ := ast.Unparen(as.Rhs[i]).(*ast.CallExpr)
+							if ce == nil || !stdFuncCalled(info, ce, "fmt", "Sprintf") || len(ce.Args) != 2 {
+								okDefs = false
+							} else {
+								defs = append(defs, ce)
+							}
+						}
+					}
+					return true
+				})
+				if okDefs && len(defs) > 0 {
+					format, fok := constStringVal(info, defs[0].Args[0])
+					operand := types.ExprString(defs[0].Args[1])
+					same := fok
+					for _, d := range defs[1:] {
+						f2, ok2 := constStringVal(info, d.Args[0])
+						if !ok2 || f2 != format || types.ExprString(d.Args[1]) != operand {
+							same = false
+						}
+					}
+					vs := parseVerbs(format)
+					verbOK := same && len(vs) == 1 && strings.ContainsRune("dxXob", vs[0]) && !strings.Contains(format, ".")
+					injective := false
+					how := ""
+					switch a := ast.Unparen(defs[0].Args[1]).(type) {
+					case *ast.Ident:
+						o := info.Uses[a]
+						if o != nil && o == idxObj && len(defs) == 1 {
+							injective, how = true, "the loop index"
+						} else if o != nil {
+							// counter: all writes in the function besides its definition are ++, and one ++ is a
+							// top-level statement of the loop body that precedes the store
+							onlyInc := true
+							ast.Inspect(fd.Body, func(n ast.Node) bool {
+								switch x := n.(type) {
+								case *ast.AssignStmt:
+									for _, l := range x.Lhs {
+										if identObj(info, l) == o && x.Tok != token.DEFINE {
+											onlyInc = false
+										}
+									}
+								case *ast.IncDecStmt:
+									if identObj(info, x.X) == o && x.Tok != token.INC {
+										onlyInc = false
+									}
+								case *ast.UnaryExpr:
+									if x.Op == token.AND && identObj(info, x.X) == o {
+										onlyInc = false
+									}
+								}
+								return true
+							})
+							incFirst := false
+							for _, st := range loopStmt.Body.List {
+								if st == ast.Stmt(assignStore) {
+									break
+								}
+								if inc, ok := st.(*ast.IncDecStmt); ok && inc.Tok == token.INC && identObj(info, inc.X) == o {
+									incFirst = true
+								}
+							}
+							if onlyInc && incFirst {
+								injective, how, counter = true, "a counter that only grows and is incremented in every turn before the name is assigned", o
+							}
+						}
+					case *ast.BinaryExpr: // i+k / i-k
 						usesIdx := false
-						ast.Inspect(dc.Args[1], func(n ast.Node) bool {
+						ast.Inspect(a, func(n ast.Node) bool {
 							if id, ok := n.(*ast.Ident); ok && idxObj != nil && info.Uses[id] == idxObj {
 								usesIdx = true
 							}
 							return true
 						})
-						injective := false
-						switch a := ast.Unparen(dc.Args[1]).(type) {
-						case *ast.Ident:
-							injective = usesIdx
-						case *ast.BinaryExpr: // i+k / i-k
-							if (a.Op == token.ADD || a.Op == token.SUB) && usesIdx {
-								_, lc := intConst(info, a.X)
-								_, rc := intConst(info, a.Y)
-								injective = lc != rc
+						if (a.Op == token.ADD || a.Op == token.SUB) && usesIdx && len(defs) == 1 {
+							_, lc := intConst(info, a.X)
+							_, rc := intConst(info, a.Y)
+							if lc != rc {
+								injective, how = true, "the loop index ± a constant"
 							}
 						}
-						if len(vs) == 1 && strings.ContainsRune("dxXob", vs[0]) && !strings.Contains(f, ".") && injective {
-							okName = true
-							nameDetail = "fmt.Sprintf(" + strconvQuote(f) + ", loop index ± constant): pairwise distinct"
-						} else {
-							nameDetail = "format " + strconvQuote(f) + " / operand `" + types.ExprString(dc.Args[1]) + "` is not an injective rendering of the loop index"
-						}
+					}
+					if verbOK && injective {
+						okName = true
+						nameDetail = "fmt.Sprintf(" + strconvQuote(format) + ", " + how + "): pairwise distinct"
+					} else {
+						nameDetail = "format " + strconvQuote(format) + " / operand `" + operand + "` is not an injective rendering of a per-turn distinct number"
 					}
 				}
 			}
+			_ = counter
 			if okName {
 				obs = append(obs, mkOb(c, "MINIFY.symbol-map", u, "distinct names", assignStore, Proved, nameDetail, true))
 			} else {
 				obs = append(obs, mkOb(c, "MINIFY.symbol-map", u, "distinct names", assignStore, Violated, nameDetail+": two symbols could receive one name and the symbol map could not be inverted", true))
+			}
+			// freshness: the store is reached only over the false edge of a membership test
+			// `<set>[newName]` on a set built from the session's input (usedSymbolNames(files))
+			{
+				var setObj types.Object
+				cls := func(e ast.Expr) (string, bool) {
+					ie, ok := ast.Unparen(e).(*ast.IndexExpr)
+					if !ok || identObj(info, ie.Index) != nameObj {
+						return "", false
+					}
+					if tv, ok := info.Types[ie.X]; ok {
+						if m, ok := tv.Type.Underlying().(*types.Map); ok && types.Identical(m.Elem(), types.Typ[types.Bool]) {
+							setObj = identObj(info, ie.X)
+							return "taken", false
+						}
+					}
+					return "", false
+				}
+				cut := fc.edgesEntailing(cls, func(v map[string]bool) bool { return v["$has:taken"] && !v["taken"] })
+				loc, lok := fc.Locate(assignStore)
+				fromInput := false
+				if setObj != nil {
+					if dc, _, _ := definingCall(info, fd.Body, setObj); dc != nil {
+						for _, a := range dc.Args {
+							if o := identObj(info, a); o != nil {
+								for _, p := range paramObjs(u) {
+									if p == o && strings.Contains(p.Type().String(), "parsedFile") {
+										fromInput = true
+									}
+								}
+							}
+						}
+					}
+				}
+				switch {
+				case lok && len(cut) > 0 && !fc.reachableAvoiding(loc.B, cut) && fromInput:
+					obs = append(obs, mkOb(c, "MINIFY.symbol-map", u, "fresh names", assignStore, Proved, "a name is assigned only after `"+setObj.Name()+"[name]` was false, and "+setObj.Name()+" is computed from the session's parsed input", true))
+				default:
+					obs = append(obs, mkOb(c, "MINIFY.symbol-map", u, "fresh names", assignStore, Violated, "generated names are assigned without testing them against the names the input already uses: (set 'x1 5) (defun double (n) (* n 2)) (double x1) minifies to (defun x1 ...) which overwrites x1", true))
+				}
 			}
 			// every turn records the rename: each of these stores lies on every cycle through the loop head
 			type rec struct {
@@ -528,3 +640,47 @@ func init() {
 }
 
 func strconvQuote(s string) string { return fmt.Sprintf("%q", s) }
+
+func init() {
+	register(&Rule{ID: "PKGTRACK.export-with-package", Floor: 4,
+		Doc: "every function of the minifier and the analysis package that recognises top-level (export ...) forms also recognises (in-package ...): exported names are relative to the current package, so a scanner that handles export without tracking in-package attributes the exports of a multi-package file to the wrong package (sibling agreement: all top-level scanners track the package)",
+		Run: func(c *Ctx) []Obligation {
+			var obs []Obligation
+			for _, u := range c.Funcs(func(p string) bool { r := rel(p); return r == "minifier" || r == "analysis" }) {
+				info := u.Pkg.TypesInfo
+				// string constants compared against (==, !=, case) in this function
+				heads := map[string]ast.Node{}
+				note := func(e ast.Expr) {
+					if s, ok := constStringVal(info, e); ok {
+						if _, seen := heads[s]; !seen {
+							heads[s] = e
+						}
+					}
+				}
+				ast.Inspect(u.Decl.Body, func(n ast.Node) bool {
+					switch x := n.(type) {
+					case *ast.BinaryExpr:
+						if x.Op == token.EQL || x.Op == token.NEQ {
+							note(x.X)
+							note(x.Y)
+						}
+					case *ast.CaseClause:
+						for _, e := range x.List {
+							note(e)
+						}
+					}
+					return true
+				})
+				exp, ok := heads["export"]
+				if !ok {
+					continue
+				}
+				if _, ok := heads["in-package"]; ok {
+					obs = append(obs, mkOb(c, "PKGTRACK.export-with-package", u, "handles export", exp, Proved, "the same function recognises in-package", false))
+				} else {
+					obs = append(obs, mkOb(c, "PKGTRACK.export-with-package", u, "handles export", exp, Violated, "this function recognises (export ...) forms but not (in-package ...): in a file with several packages the exported names are looked up without their package", true))
+				}
+			}
+			return obs
+		}})
+}
